@@ -37,7 +37,7 @@ ASSUMPTIONS = [
     "structural equality (==) of fluents/objects/actions is accepted as 'is declared in the problem'",
 ]
 
-SLOTS = W.TARGET_ORDER + ["pipeline", "grounder", "pipeline", "tcrm"]  # the name-creating grounder (F13 anchor) / tcrm get a double share
+SLOTS = W.TARGET_ORDER + ["pipeline", "grounder", "pipeline", "tcrm"] + W.EXTRA_TARGETS  # the name-creating grounder (F13 anchor) / tcrm get a double share
 N = {"quick": 1400, "thorough": 16000}
 SHARD_TIMEOUT = {"quick": 600, "thorough": 5400}
 
@@ -73,7 +73,7 @@ def run_examples(res, only=None):
             kind = pb.kind
         except Exception:
             continue
-        for t in W.TARGET_ORDER:
+        for t in W.TARGET_ORDER + W.EXTRA_TARGETS:
             if only and (name, t) != tuple(only):
                 continue
             Comp = W.compiler_class(t)
@@ -89,24 +89,23 @@ def target_of(key):
 
 
 def grounder_join_trap(pb):
-    """Own enumeration: do two ground instances (or an instance and an existing name) share the `_`-joined name?"""
+    """Own enumeration: the largest number of ground instances (an existing name counts as one) sharing one `_`-joined name
+    (1 = no trap)."""
     from vk.ref import seqsem
     from vk.ref.evalx import Unsupported
 
     try:
         inst = seqsem.all_instances(pb)
     except (Unsupported, Exception):
-        return False
-    names = set()
+        return 1
+    names = {}
     glob = {f.name for f in pb.fluents} | {o.name for o in pb.all_objects} | {t.name for t in pb.user_types} | {a.name for a in pb.actions}
     for a, args in inst:
         if not args:
             continue
         n = "_".join([a.name] + [("true" if v is True else "false" if v is False else str(v)) for v in args])
-        if n in names or n in glob:
-            return True
-        names.add(n)
-    return False
+        names[n] = names.get(n, 1 if n in glob else 0) + 1
+    return max(names.values(), default=1)
 
 
 def all_names(pb):
@@ -151,6 +150,13 @@ def run_case(key, tier, res):
     else:
         compiler = W.compiler_class(target)()
         label = target
+        if target == "ifrm" and any(f.startswith("INTERPRETED_FUNCTIONS") for f in case["kind"].features):
+            res.count("ifrm:input-has-interpreted-functions")
+        if target in ("t2s", "da2p"):
+            for f in pb.fluents:
+                if f in pb.fluents_defaults and any(k.fluent() == f for k in pb.explicit_initial_values):
+                    res.count(f"{target}:input-has-fluent-with-default-and-explicit-values")
+                    break
     judge_compile(res, label, label, compiler, pb, env, wbase, rec)
 
 
@@ -163,8 +169,12 @@ def judge_compile(res, counter_label, label, compiler, pb, env, wbase, rec, coun
             res.count(f"trap:{t}:{label}")
         if traps:
             res.count(f"trap:any:{label}")
-        if label in ("grounder", "tcrm", "pipeline") and grounder_join_trap(pb):
-            res.count(f"trap:ground-join:{label}")
+        if label in ("grounder", "tcrm", "pipeline"):
+            ways = grounder_join_trap(pb)
+            if ways >= 2:
+                res.count(f"trap:ground-join:{label}")
+            if ways >= 3:
+                res.count(f"trap:ground-join-3+:{label}")
     res.mon()
     ocs = W.observe_compile(compiler, pb)
     res.case()
@@ -186,7 +196,7 @@ def judge_compile(res, counter_label, label, compiler, pb, env, wbase, rec, coun
     cp = result.problem
     viols, stats = W.wf_violations(cp, error_used_name=env.error_used_name)
     res.count("expressions_walked", stats["expressions"])
-    bviols, bstats = W.back_conversion_violations(result, pb, cp)
+    bviols, bstats = W.back_conversion_violations(result, pb, cp, probe=W.probe_of(label))
     res.count("single_step_plans_converted", bstats["steps"])
     res.count("steps_mapped_to_none", bstats["mapped_to_none"])
     new_names = sorted(set(all_names(cp)) - set(names_in))
@@ -209,7 +219,7 @@ def judge_compile(res, counter_label, label, compiler, pb, env, wbase, rec, coun
 def thresholds(m):
     c = m["counters"]
     out = []
-    for t in W.TARGET_ORDER + ["pipeline"]:
+    for t in W.TARGET_ORDER + W.EXTRA_TARGETS + ["pipeline"]:
         n = c.get(f"compile:{t}:returned", 0)
         tot = sum(c.get(f"compile:{t}:{k}", 0) for k in ("returned", "rejected", "name-clash", "raised"))  # "env" outcomes are retried
         if tot < 40:
@@ -223,6 +233,12 @@ def thresholds(m):
             out.append(f"fewer than 10 compilations where {t} created a name")
     if c.get("trap:ground-join:grounder", 0) < 6:
         out.append(f"fewer than 6 grounder inputs with a `_`-join trap ({c.get('trap:ground-join:grounder', 0)})")
+    if c.get("ifrm:input-has-interpreted-functions", 0) < 5:
+        out.append(f"fewer than 5 InterpretedFunctionsRemover inputs with an interpreted function ({c.get('ifrm:input-has-interpreted-functions', 0)})")
+    if c.get("t2s:input-has-fluent-with-default-and-explicit-values", 0) < 10:
+        out.append("fewer than 10 TimedToSequential inputs with a fluent that has both a default and explicit initial values")
+    if c.get("trap:ground-join-3+:grounder", 0) < 4:
+        out.append(f"fewer than 4 grounder inputs where three or more ground instances share one `_`-joined name ({c.get('trap:ground-join-3+:grounder', 0)})")
     if c.get("single_step_plans_converted", 0) < 500:
         out.append("fewer than 500 single-step plans back-converted")
     if c.get("regenerated_outside_kind", 0) > 3 * max(m["evaluations"], 1):
